@@ -6,7 +6,6 @@ import (
 	"path/filepath"
 	"strings"
 	"testing"
-	"testing/synctest"
 	"time"
 )
 
@@ -26,7 +25,7 @@ const c08UnitPlaceholder = "@UNIT@"
 func runC08Input(t *testing.T, ins []c08Input) CaseOut {
 	var out CaseOut
 	out.Nontrivial = true
-	synctest.Test(t, func(t *testing.T) {
+	bubble(t, func(t *testing.T) {
 		e := newCtlEnv("n1", []workTypeSpec{{"echo", "echo", false}, {"hold", "hold", false}})
 		defer e.close()
 		unitID := "nounit00"
